@@ -417,7 +417,8 @@ class World:
             if n == "TYPE_CHECKING":
                 return False
             return Opaque(f"{m}.{n}" if n else m)
-        raise Unsupported(f"external import {m}.{n}")
+        # any other third-party / standard-library module: an opaque sink (its results cannot be inspected)
+        return Opaque(f"{m}.{n}" if n else m)
 
     def cls(self, dotted_module, name):
         mod = self.module(dotted_module)
@@ -499,7 +500,7 @@ class Interp:
             self.exec_block(st.body if t else st.orelse, env)
         elif isinstance(st, ast.For):
             broke = False
-            for x in self.iterate(self.ev(st.iter, env)):
+            for x in self.iterate_live(self.ev(st.iter, env)):
                 self.assign(st.target, x, env)
                 try:
                     self.exec_block(st.body, env)
@@ -536,6 +537,30 @@ class Interp:
             raise PyRaise(ast.unparse(st.exc).split("(")[0] if st.exc else "reraise", (self.mod.name, st.lineno))
         elif isinstance(st, ast.FunctionDef):
             env[st.name] = FuncV(self.mod, st, closure=env)
+        elif isinstance(st, ast.Try):
+            try:
+                try:
+                    self.exec_block(st.body, env)
+                except PyRaise as e:
+                    for h in st.handlers:
+                        if self._handler_matches(h, e, env):
+                            if h.name:
+                                env[h.name] = Opaque(f"exception {e.exc}")
+                            self.exec_block(h.body, env)
+                            break
+                    else:
+                        raise
+                else:
+                    self.exec_block(st.orelse, env)
+            finally:
+                if st.finalbody:
+                    self.exec_block(st.finalbody, env)
+        elif isinstance(st, ast.With):
+            for item in st.items:
+                v = self.ev(item.context_expr, env)
+                if item.optional_vars is not None:
+                    self.assign(item.optional_vars, v, env)
+            self.exec_block(st.body, env)
         elif isinstance(st, (ast.Import, ast.ImportFrom)):
             pass
         elif isinstance(st, ast.Delete):
@@ -580,6 +605,24 @@ class Interp:
         else:
             raise Unsupported(f"assign target {type(t).__name__}")
 
+    def _handler_matches(self, h, e, env):
+        if h.type is None:
+            return True
+        names = [ast.unparse(t).split(".")[-1] for t in (h.type.elts if isinstance(h.type, ast.Tuple) else [h.type])]
+        exc = str(e.exc).split(".")[-1]
+        if exc in names or "Exception" in names or "BaseException" in names:
+            return True
+        # repository exception classes: match through the hierarchy
+        for nm in names:
+            try:
+                c = self.mod.lookup(nm)
+                x = self.mod.lookup(exc)
+            except (KeyError, Unsupported):
+                continue
+            if isinstance(c, ClassV) and isinstance(x, ClassV) and x.is_sub(c):
+                return True
+        return False
+
     def assign_attr(self, o, attr, v):
         if isinstance(o, Opaque):
             return
@@ -606,6 +649,24 @@ class Interp:
         if isinstance(v, (ClassV, FuncV, EnumMember)):
             return True
         return bool(v)
+
+    def iterate_live(self, v):
+        """iteration with CPython's semantics when the container is mutated by the loop body: a list is walked by index
+        (removing the current element skips the next one), a dict or set whose size changes raises RuntimeError"""
+        if isinstance(v, list):
+            i = 0
+            while i < len(v):
+                yield v[i]
+                i += 1
+            return
+        if isinstance(v, (dict, set)):
+            n = len(v)
+            for x in list(v):
+                if len(v) != n:
+                    raise PyRaise("RuntimeError", None)
+                yield x
+            return
+        yield from self.iterate(v)
 
     def iterate(self, v):
         if isinstance(v, (list, tuple, set, frozenset, range, dict, str)):
@@ -862,7 +923,7 @@ class Interp:
                 yield e
                 return
             g = generators[i]
-            for x in self.iterate(self.ev(g.iter, e)):
+            for x in self.iterate_live(self.ev(g.iter, e)):
                 e2 = {"__parent__": e}
                 self.assign(g.target, x, e2)
                 if all(self.truth(self.ev(c, e2)) for c in g.ifs):
